@@ -97,6 +97,17 @@ Theorem C14_resolver_concat : forall h c t specs l h' c' s,
 Proof. exact resolve_flat. Qed.
 Print Assumptions C14_resolver_concat.
 
+(* tables with callables / YAML files (no callable with a memory): the pipelines that resolve()
+   sums - Model.Pipeline.resolve: psum over map fst (isort (info_leb p_prio) infos) - are, one by one
+   and in this order, the entries of the permutation-invariant (priority, identifier) order of
+   C14_resolver_entries_perm: the registered object itself, or a fresh pipeline with the content of
+   the callable's / file's definition *)
+Theorem C14_resolver_instances : forall h c t specs l hc infos, no_seq t ->
+  resolve_all tab_nm t specs = Some l -> minst_all h c l = (hc, Ok infos) ->
+  Forall2 inst_of (map fst (isort (info_leb ent_prio) l)) (map fst (isort (info_leb p_prio) infos)).
+Proof. exact resolve_instances. Qed.
+Print Assumptions C14_resolver_instances.
+
 (* FULL STATEMENT (false of the faithful model, see C14_reuse_refuted):
      forall h f p rules, snd (m_run h f p rules) = abs_run f (abs h p) rules
    i.e. a pipeline converts every rule list like the abstract pipeline it denotes, in every history.
